@@ -73,6 +73,7 @@ func CheckBackend(r *verifmc.Run, backend string) {
 type pair struct {
 	k, u Named
 	id   string
+	want []byte // constructed cases: the prescribed output
 }
 
 type pairSet struct {
@@ -92,7 +93,7 @@ func (ps *pairSet) product(ks, us []Named) {
 				continue
 			}
 			ps.seen[key] = true
-			ps.pairs = append(ps.pairs, pair{k, u, ps.unit + "/k=" + k.Name + "/u=" + u.Name})
+			ps.pairs = append(ps.pairs, pair{k: k, u: u, id: ps.unit + "/k=" + k.Name + "/u=" + u.Name})
 		}
 	}
 }
@@ -109,6 +110,7 @@ type result struct {
 	kc        string
 	find      []finding
 	ran       bool
+	harness   string
 }
 
 func hx(b []byte) string { return verifmc.FullHex(b) }
@@ -124,6 +126,10 @@ func evalShared(im *Impl, m *memo, p *pair) result {
 	pan, what := verifmc.Try(func() { res.out, res.ok = im.Shared(k, u) })
 	entry := im.Name + ".Shared"
 	cls := "u=" + res.uc.String() + ",k=" + res.kc
+	res.want = m.X(p.k.B, p.u.B)
+	if !xladder.IsZero(res.want) && im.P.InWindow(res.want) {
+		cls += ",out=has-noncanonical-alias"
+	}
 	if pan {
 		res.panicked = what
 		res.find = append(res.find, finding{"C06|" + entry + "|panic-" + verifmc.PanicClass(what) + "|" + cls, "panic: " + what})
@@ -132,7 +138,9 @@ func evalShared(im *Impl, m *memo, p *pair) result {
 	if !bytes.Equal(k, p.k.B) || !bytes.Equal(u, p.u.B) {
 		res.find = append(res.find, finding{"C06|" + entry + "|input-modified|" + cls, "Shared modified its secret or public argument"})
 	}
-	res.want = m.X(p.k.B, p.u.B)
+	if p.want != nil && !bytes.Equal(p.want, res.want) {
+		res.harness = fmt.Sprintf("constructed peer %s does not give the prescribed output under the reference: %s want %s", p.id, hx(res.want), hx(p.want))
+	}
 	if !bytes.Equal(res.out, res.want) {
 		res.find = append(res.find, finding{"C06|" + entry + "|value-differs-from-rfc7748|" + cls,
 			fmt.Sprintf("Shared(k=%s, u=%s) = %s, RFC 7748 gives %s", hx(p.k.B), hx(p.u.B), hx(res.out), hx(res.want))})
@@ -169,6 +177,15 @@ func runPairs(r *verifmc.Run, im *Impl, m *memo, pairs []pair) {
 		r.Eval(1)
 		r.Distinct(p.k.B, p.u.B)
 		r.Count("pairs", 1)
+		if x.harness != "" {
+			r.Vacuous(x.harness)
+		}
+		if p.want != nil {
+			r.Count("constructed_pairs", 1)
+		}
+		if x.want != nil && !xladder.IsZero(x.want) && im.P.InWindow(x.want) {
+			r.Count("reference_output_has_noncanonical_alias", 1)
+		}
 		r.Count("u_"+x.uc.Side, 1)
 		if x.uc.NonCanonical {
 			r.Count("u_noncanonical", 1)
@@ -262,6 +279,24 @@ func RunShared(r *verifmc.Run, im *Impl) {
 		prod("k_bits", kBits, "u_small[:2]", uSmall[:2])
 		prod("k_limbs", kLimbs, "u_small[:3]", uSmall[:3])
 	}
+	// constructed peers: X(k,u) is a prescribed value with a non-canonical alias
+	// (or just below p); every core scalar x every narrow target, two scalars x wide targets
+	targets := pp.Targets(th)
+	cons := pp.ConstructedPeers(kCore, targets, 2)
+	for _, c := range cons {
+		key := string(c.K.B) + string(c.U.B)
+		if ps.seen[key] {
+			continue
+		}
+		ps.seen[key] = true
+		ps.pairs = append(ps.pairs, pair{k: c.K, u: c.U, id: "shared/k=" + c.K.Name + "/u=" + c.U.Name, want: c.Want})
+	}
+	products = append(products, fmt.Sprintf("constructed: distinct clamped k_core x %d prime-order output targets (u built so that X(k,u) = target): %d pairs", len(targets), len(cons)))
+	tn := make([]Named, len(targets))
+	for i, t := range targets {
+		tn[i] = Named{Name: t.Name + "/" + t.Side}
+	}
+	r.Set("output_targets", names(tn, 600))
 	r.Set("products", products)
 	r.Set("alphabet", map[string]interface{}{
 		"k_core": names(kCore, 100), "u_core": names(uCore, 400),
@@ -274,7 +309,7 @@ func RunShared(r *verifmc.Run, im *Impl) {
 		"each pair runs the real Shared once and is compared with the RFC 7748 big.Int ladder (value) and with output==0 (flag)")
 	m := newMemo(pp.C, r)
 	runPairs(r, im, m, ps.pairs)
-	runAlias(r, im, m, kCore, uCore)
+	runAlias(r, im, m, kCore, uCore, cons)
 	runChain(r, im, m, r.Pick(200, 1000))
 	m.finish(r)
 	if pp.C.Bits == 448 {
@@ -283,6 +318,8 @@ func RunShared(r *verifmc.Run, im *Impl) {
 	r.RequireCounter("pairs", 4000)
 	r.RequireCounter("flag_false", 50)
 	r.RequireCounter("reference_zero", 50)
+	r.RequireCounter("constructed_pairs", 300)
+	r.RequireCounter("reference_output_has_noncanonical_alias", 20)
 	r.RequireCounter("u_noncanonical", 200)
 	r.RequireCounter("u_twist", 100)
 	r.RequireCounter("u_curve", 100)
